@@ -824,6 +824,8 @@ func genReify(g *Gen, mode string) {
 				t, cfgData, fix = bigBounds(r)
 			} else if mode == "C04" && r.P(1, 12) {
 				t, cfgData, fix = ifaceTagged(r)
+			} else if mode == "C04" && r.P(1, 12) {
+				t, cfgData, fix = durationBounds(r)
 			}
 			dual := mode == "C04" && fix == nil && r.P(1, 5)
 			dualC := mode == "C13" && fix == nil && r.P(1, 5)
@@ -1009,6 +1011,35 @@ func bigBounds(r *Rng) (*tyNode, map[string]interface{}, func(reflect.Value)) {
 		v.Field(1).SetUint(18446744073709551615)
 		v.Field(2).SetInt(0)
 		v.Field(3).SetInt(9223372036854775806)
+	}
+}
+
+// durationBounds: min/max bounds of Duration fields written as fractional numbers of seconds,
+// with settings between the bound and its whole-second truncation
+func durationBounds(r *Rng) (*tyNode, map[string]interface{}, func(reflect.Value)) {
+	dT := func() *tyNode { return &tyNode{Kind: "prim", Prim: primKinds[10]} }
+	t := &tyNode{Kind: "struct", Fields: []tyField{
+		{GoName: "A", CTag: "a", VTag: "min=0.5", T: dT()},
+		{GoName: "B", CTag: "b", VTag: "max=1.5", T: dT()},
+		{GoName: "C", CTag: "c", VTag: "min=1.5", T: dT()},
+		{GoName: "D", CTag: "d", VTag: "min=0.25, max=0.75", T: dT()}}}
+	pick := func(xs ...string) interface{} { return xs[r.Intn(len(xs))] }
+	cfg := map[string]interface{}{
+		"a": pick("200ms", "500ms", "700ms", "1s"),
+		"b": pick("1.2s", "1.5s", "1s", "2s"),
+		"c": pick("1.2s", "1.5s", "2s", "1s"),
+		"d": pick("200ms", "500ms", "700ms", "800ms"),
+	}
+	for _, k := range []string{"a", "b", "c", "d"} {
+		if r.P(1, 4) {
+			delete(cfg, k)
+		}
+	}
+	return t, cfg, func(v reflect.Value) {
+		v.Field(0).SetInt(int64(time.Second))
+		v.Field(1).SetInt(int64(time.Second))
+		v.Field(2).SetInt(int64(2 * time.Second))
+		v.Field(3).SetInt(int64(500 * time.Millisecond))
 	}
 }
 
